@@ -134,19 +134,21 @@ Record wf (g : graph) : Prop := mkWf {
 }.
 
 (* label-preserving graph isomorphism: a bijection between the node sets (given with its inverse)
-   that preserves element labels and adjacency *)
+   that preserves element labels, atom classes and adjacency (what networkx's GraphMatcher decides
+   with the node matcher on atom_label and atom_class) *)
 Definition Iso (g h : graph) : Prop :=
   exists f f' : nat -> nat,
     (forall i, In i (g_nodes g) -> In (f i) (g_nodes h) /\ f' (f i) = i /\ g_label h (f i) = g_label g i) /\
     (forall j, In j (g_nodes h) -> In (f' j) (g_nodes g) /\ f (f' j) = j) /\
-    (forall i j, In i (g_nodes g) -> In j (g_nodes g) -> (adj g i j <-> adj h (f i) (f j))).
+    (forall i j, In i (g_nodes g) -> In j (g_nodes g) -> (adj g i j <-> adj h (f i) (f j))) /\
+    (forall i, In i (g_nodes g) -> g_class h (f i) = g_class g i).
 
 Lemma Iso_refl g : Iso g g.
 Proof. exists (fun i => i), (fun i => i). repeat split; auto; tauto. Qed.
 
 Lemma Iso_sym g h : Iso g h -> Iso h g.
 Proof.
-  intros [f [f' [H1 [H2 H3]]]]. exists f', f. repeat split.
+  intros [f [f' [H1 [H2 [H3 H4]]]]]. exists f', f. repeat split.
   - apply H2; auto.
   - apply H2; auto.
   - destruct (H2 _ H) as [Hn Hf]. destruct (H1 _ Hn) as [_ [_ Hl]]. rewrite Hf in Hl. auto.
@@ -156,11 +158,12 @@ Proof.
     apply (H3 _ _ Hi Hj). rewrite Hfi, Hfj. auto.
   - intros Ha. destruct (H2 _ H) as [Hi Hfi], (H2 _ H0) as [Hj Hfj].
     apply (H3 _ _ Hi Hj) in Ha. rewrite Hfi, Hfj in Ha. auto.
+  - intros j Hj. destruct (H2 _ Hj) as [Hn Hf]. rewrite <- (H4 _ Hn), Hf. reflexivity.
 Qed.
 
 Lemma Iso_trans a b c : Iso a b -> Iso b c -> Iso a c.
 Proof.
-  intros [f [f' [H1 [H2 H3]]]] [g [g' [G1 [G2 G3]]]].
+  intros [f [f' [H1 [H2 [H3 H4]]]]] [g [g' [G1 [G2 [G3 G4]]]]].
   exists (fun i => g (f i)), (fun k => f' (g' k)). repeat split.
   - apply G1, H1; auto.
   - destruct (H1 _ H) as [Hn [Hf _]]. destruct (G1 _ Hn) as [_ [Hg _]]. rewrite Hg. auto.
@@ -171,15 +174,21 @@ Proof.
     apply (G3 _ _ Hi Hj). apply (H3 _ _ H H0). auto.
   - intros Ha. destruct (H1 _ H) as [Hi _], (H1 _ H0) as [Hj _].
     apply (H3 _ _ H H0). apply (G3 _ _ Hi Hj). auto.
+  - intros i Hi. destruct (H1 _ Hi) as [Hn _]. rewrite (G4 _ Hn). apply H4; auto.
 Qed.
 
 (* same nodes, labels and adjacency: isomorphic by the identity *)
 Definition adj_equiv (g h : graph) : Prop :=
-  g_nodes g = g_nodes h /\ (forall i, g_label g i = g_label h i) /\ equiv_l (g_edges g) (g_edges h).
+  g_nodes g = g_nodes h /\ (forall i, g_label g i = g_label h i) /\
+  (forall i, g_class g i = g_class h i) /\ equiv_l (g_edges g) (g_edges h).
 Lemma adj_equiv_Iso g h : adj_equiv g h -> Iso g h.
 Proof.
-  intros [Hn [Hl He]]. exists (fun i => i), (fun i => i). repeat split; try rewrite <- Hn; auto;
-    try rewrite Hn; auto; unfold adj; apply He.
+  intros [Hn [Hl [Hc He]]]. exists (fun i => i), (fun i => i).
+  split; [|split; [|split]].
+  - intros i Hi. rewrite <- Hn. auto.
+  - intros j Hj. rewrite Hn. auto.
+  - intros i j _ _. unfold adj. apply He.
+  - intros i _. auto.
 Qed.
 
 (* ================================================================== counting edges under an isomorphism *)
@@ -264,7 +273,7 @@ Lemma iso_counts_le g h :
   wf g -> Iso g h ->
   (forall k, length (bonds_of g k) <= length (bonds_of h k)) /\ length (g_edges g) <= length (g_edges h).
 Proof.
-  intros Hwf [f [f' [H1 [H2 H3]]]].
+  intros Hwf [f [f' [H1 [H2 [H3 H4]]]]].
   assert (Himg : forall e, In e (g_edges g) ->
             exists e', In e' (g_edges h) /\ eq_u e' (emap f e) /\ edge_key h e' = edge_key g e).
   { intros [a b] He. destruct (wf_ends _ Hwf _ He) as [Ha Hb]; cbn in Ha, Hb.
@@ -1827,7 +1836,7 @@ Section Complete.
       cbn [length] in *; try lia.
     - (* nothing changes: the product would be isomorphic to the reactant *)
       exfalso. apply Hnot. apply Iso_trans with (apply_edit r [] []); [|apply C].
-      apply adj_equiv_Iso. split; [reflexivity|split; [reflexivity|apply equiv_l_refl]].
+      apply adj_equiv_Iso. split; [reflexivity|split; [reflexivity|split; [reflexivity|apply equiv_l_refl]]].
     - (* 1b *)
       replace (length (g_edges r)) with (length (g_edges p) + 1) by lia. rewrite funcs_of_1.
       destruct (pat_1b b1 C) as [cs [Ec H]]. cbn [run_funcs cands]. rewrite Ec, (HR _ _ H). eauto.
